@@ -14,6 +14,8 @@ P = {
          "Trusted: z3, CrossHair, token stand-ins. Bounds: <= 3 items, <= 3 blocks per array/map, schema family F.", TECH_E1 + "; " + TECH_E2),
  "C14": ("Bounded symbolic model checking with an inductive loop cut: init, one table-driven step from an arbitrary 64-bit state and byte against the bitwise CRC-64-AVRO definition, and the output formatting are proved on the real rabin_fingerprint source (z3 QF_BV) - covering every input length by induction; algorithm dispatch is explored for every advertised name with hashlib.new as a recording stub.",
          "Trusted: z3; hashlib digests themselves (C code) are outside; loop-cut soundness argument stated in evidence.", TECH_E1 + " with a havoc loop cut (inductive step)"),
+ "C09": ("Bounded symbolic model checking: CrossHair executes the real write_union/_validate*/read_union code over token streams for every union schema of the stated family with the datum, the hint placement, reader options and disable_tuple_notation symbolic; the written index at every union position is compared with an independent statement of the branch rule, and the read-with-names/write-back closure is checked token for token.",
+         "Trusted: CrossHair/z3, token stand-ins (justified by the E1 token contract). Where the statement leaves the branch open (datum conforming to both a record and a non-record branch) nothing is asserted.", TECH_E2),
 }
 
 NA = {}
